@@ -145,6 +145,10 @@ static int attr_pcomp_parse_key(const char *path_str,
 static int attr_pcomp_parse_index(const char *path_str,
 				      struct attr_pcomp **comp)
 {
+    /* strtol() skips white space and accepts a sign */
+    if (path_str[0] < '0' || path_str[0] > '9')
+	return -1;
+
     char *end;
     long index = strtol(path_str, &end, 10);
 
